@@ -45,7 +45,7 @@ func c17Layouts(ntok int, thorough bool) []struct {
 		{"oneline", Layout{StmtSep: "sp"}},
 		{"semisp", Layout{StmtSep: "semisp"}},
 	}
-	comments := []string{"--x\n", "--[[x]]", "--[==[x\ny\nz]==]", "--[x\n", "--]]\n", "--[[\n]]", "--[==[a]=\nb]\nc]==]", "--[=[a]\nb]==\n]=]"}
+	comments := []string{"--x\n", "--[[x]]", "--[==[x\ny\nz]==]", "--[x\n", "--]]\n", "--[[\n]]", "--[==[a]=\nb]\nc]==]", "--[=[a]\nb]==\n]=]", "--[=\n", "--[==\n", "--[=x\n", "--[\n"}
 	for ci, c := range comments {
 		for _, g := range []int{1, 7, ntok / 2, ntok - 3} {
 			if g >= 1 && g < ntok {
